@@ -32,6 +32,10 @@ if [ "$tier" = "--build" ]; then
   if [ "$prop" = C01 ]; then props/mcrun.sh C01 --build; go build -race -tags verif -o bin/c01_race ./props/c01; fi
   exit 0
 fi
+# the run's time budget is shared by the parts (one program per fan-out), not granted to each
+if [ -z "${VERIF_BUDGET:-}" ]; then
+  if [ "$tier" = quick ]; then export VERIF_BUDGET=3m; else export VERIF_BUDGET=20m; fi
+fi
 pids=""
 for f in $fanouts; do ( build_variant $f; echo $? > $B/rc$f ) & pids="$pids $!"; done
 wait $pids
